@@ -546,11 +546,24 @@ int run_check(const std::string& prop, const std::string& tier, uint64_t seed, i
     if (!build_check(prop, tier, spec, err)) { fprintf(stderr, "jsim: %s\n", err.c_str()); return 2; }
     Replicas reps; if (!load_all(reps, err)) { fprintf(stderr, "jsim: replica load failed: %s\n", err.c_str()); return 2; }
     CheckState st; st.spec = &spec; st.reps = &reps; st.seed = seed;
+    // Configurations that no longer build from this tree. The adapter's fault: harness problem. A library source's fault: the
+    // configuration is broken - a violation for the properties that quantify over configurations, a dropped replica for the others.
+    for (auto& nb : reps.not_built) {
+        std::string txt; read_file(replica_dir() + "/failed_" + nb + ".txt", txt); std::string src = txt.substr(0, txt.find('\n')), first;
+        { size_t e = txt.find("error"); if (e != std::string::npos) { size_t ls = txt.rfind('\n', e); ls = ls == std::string::npos ? 0 : ls + 1; size_t le = txt.find('\n', e); first = txt.substr(ls, (le == std::string::npos ? txt.size() : le) - ls); } }
+        const char* what = nb == "As" ? "x86-64 asm with -mbmi2 -madx" : nb == "B" ? "portable C++ (-DDISABLE_ASM), 64-bit words" : nb == "C" ? "portable C++ (-DDISABLE_ASM), 32-bit words (-U__SIZEOF_INT128__)" : nb == "G" ? "x86-64 asm built with g++" : nb.c_str();
+        if (src.find("/adapter/") != std::string::npos || txt.empty()) { fprintf(stderr, "jsim: the verification adapter does not build against this tree in configuration %s:\n%s\n", what, txt.c_str()); return 2; }
+        printf("note: the library does not build in configuration [%s]: %s: %s\n", what, src.c_str(), first.c_str());
+        st.extra->set("configuration_not_built:" + nb, src + ": " + first);
+        if (prop == "C03" || prop == "C19" || prop == "C20") { st.violated = true; st.v = {prop, "configuration-builds", std::string("the library no longer builds in a configuration the property quantifies over [") + what + "]: " + src + ": " + first, 0}; }
+    }
+    // batches keep only replicas that exist; a batch left without any is skipped
+    for (auto& b : spec.batches) { std::vector<std::string> keep; for (auto& l : b.replicas) if (reps.by_label(l) || l.compare(0, 3, "ARM") == 0) keep.push_back(l); if (keep.size() != b.replicas.size()) { b.note += " [replicas that do not build from this tree left out]"; b.replicas = keep; } bool real = false; for (auto& l : b.replicas) if (reps.by_label(l)) real = true; if (!real) b.runs = 0; }
     printf("jsim check %s tier=%s seed=%llu flavour=%s workers=%d replicas=%s\n", prop.c_str(), tier.c_str(), (unsigned long long) seed, flavour().c_str(), workers, replica_dir().c_str());
     fflush(stdout);
 
     // static phases (run in the parent; deterministic facts such as the ABI table)
-    for (auto& ph : spec.static_phases) {
+    if (!st.violated) for (auto& ph : spec.static_phases) {
         if (!ph(st)) break;
     }
 
